@@ -77,6 +77,10 @@ def run(ctx):
             viol.setdefault("C02/error-on-moderate-nesting/%s" % c["construct"], []).append(dict(key, errors=r["errors"], first=r.get("first")))
         if exp["must_error"] and r["errors"] == 0:
             viol.setdefault("C02/no-error-beyond-limit/%s" % c["construct"], []).append(dict(key, errors=0))
+        if r["nev"] > exp["ev_k"] * (r["len"] + 1) + exp["ev_c"]:
+            viol.setdefault("C02/work-not-linear/%s" % c["construct"], []).append(dict(key, events=r["nev"], tokens=r["ntok"], bytes=r["len"]))
+        if not r["progress"]:
+            viol.setdefault("C02/progress/parse_chunk-iteration-without-token", []).append(dict(key, loop_iterations=r["loop_iterations"]))
         ladder.setdefault((c["construct"], c["level"]), []).append((c["depth"], r["cpu_ns"], r.get("len", 0)))
     # CPU-time growth exponent between the two largest completed depths (thread CPU time, not wall)
     expo = {}
@@ -88,8 +92,10 @@ def run(ctx):
             e = math.log(t2 / t1) / math.log(d2 / d1)
             expo["%s/%s" % (name, lv)] = round(e, 2)
             if e > 1.8 and t2 > 2e9:
-                viol.setdefault("C02/superlinear-time/%s" % name, []).append(
-                    {"construct": name, "level": lv, "depths": [d1, d2], "cpu_ms": [round(t1 / 1e6), round(t2 / 1e6)], "exponent": round(e, 2)})
+                # CPU time on this shared machine is too noisy to be a verdict (repeated runs of one case differ by
+                # 10x); recorded, never an alarm. The machine-independent part is events <= K*tokens + c above.
+                ctx.divergence({"cpu_time_growth": name, "level": lv, "depths": [d1, d2],
+                                "cpu_ms": [round(t1 / 1e6), round(t2 / 1e6)], "exponent": round(e, 2)})
     ctx.note("outcomes", outcomes)
     ctx.note("cpu_growth_exponent", expo)
 
